@@ -84,9 +84,17 @@ def model_inputs(model, consts):
             out[name] = fractions.Fraction(a.numerator_as_long(), a.denominator_as_long())
         elif z3.is_true(v) or z3.is_false(v):
             out[name] = fractions.Fraction(int(z3.is_true(v)))
+        elif z3.is_string_value(v):
+            out[name] = _z3_string(v)
         else:
             raise ValueError(f"model value of {name}: {v}")
     return out
+
+
+def _z3_string(v):
+    s = v.as_string()
+    import re as _re
+    return _re.sub(r"\\u\{([0-9a-fA-F]+)\}", lambda m: chr(int(m.group(1), 16)), s)
 
 
 def concretise(fr_inputs, int_names=()):
@@ -94,7 +102,10 @@ def concretise(fr_inputs, int_names=()):
     enc, val = {}, {}
     import mpmath
     for k, fr in fr_inputs.items():
-        if k in int_names:
+        if isinstance(fr, str):
+            enc[k] = ["str", fr]
+            val[k] = fr
+        elif k in int_names:
             enc[k] = ["int", int(fr)]
             val[k] = mpmath.mpf(int(fr))
         else:
@@ -179,6 +190,10 @@ def replay_gate(eng, vc, spec, consts, int_names, base_query, max_models=6, neut
             for c in consts.values():
                 if z3.is_real(c):
                     nice += [c >= -8, c <= 8, z3.IsInt(c * 4)]
+        elif attempt == 1:
+            for c in consts.values():         # exactly representable doubles of moderate size
+                if z3.is_real(c):
+                    nice += [c >= -2 ** 20, c <= 2 ** 20, z3.IsInt(c * 2 ** 30)]
         r = eng.check(base_query, *extra, *nice, timeout=min(eng.timeout, 5000))
         if r != "sat" and nice:
             r = eng.check(base_query, *extra, timeout=min(eng.timeout, 5000))
